@@ -559,7 +559,10 @@ def _run(ctx):
     names = arch_list(ctx.quick)
     _load(names)
     cases = all_cases(names, ctx.quick)
+    import time
+    t0 = time.time()
     compiled = jitx.precompile(ctx, _gcc_jobs(cases))
+    t1 = time.time()
     # shard by (arch, instruction, site, backend) so that the reference is computed once per shard
     groups = {}
     for c in cases:
@@ -592,6 +595,8 @@ def _run(ctx):
         "distinct_outcomes": len(outcomes),
         "fault_free_crosschecks": cc,
         "gcc_blocks_precompiled": compiled,
+        "seconds_precompile": round(t1 - t0, 1),
+        "seconds_cases": round(time.time() - t1, 1),
         "cases_per_arch": per_arch,
         "bounds": {"archs": names, "instructions": {n: [i[0] for i in arch_of(n).insns] for n in names},
                    "fault_kinds": KINDS, "positions": POSITIONS, "backends": BACKENDS, "jit_maxline": MAXLINES,
